@@ -96,8 +96,8 @@ Proof. exact break_guard_sound. Qed.
 Print Assumptions C05_break_never_leaves_main.
 
 Example C05_break_guard_nonvacuous :
-  transl_ok [IMainLoop [SIf n_flag [SBreak]]] = false /\
-  transl_ok [IMainLoop [SFor 2 [SIf n_flag [SBreak]]]] = true /\
+  transl_ok [IMainLoop [SIf n_flag [SBreak] []]] = false /\
+  transl_ok [IMainLoop [SFor 2 [SIf n_flag [SBreak] []]]] = true /\
   transl_ok [IStmt SBreak] = false.
 Proof. exact break_guard_examples. Qed.
 Print Assumptions C05_break_guard_nonvacuous.
